@@ -203,6 +203,26 @@ class Fn:
                         and n.id not in self.locals and n.id not in used:
                     used.append(n.id)
             self.params += used
+        # type-alias locals: assigned once, and every read of them in the function's own statements sits in an annotation or in the first
+        # argument of `typing.cast` (never evaluated into the result): their assignments are dropped (that evaluating `A | B` over classes
+        # cannot fail is not modelled)
+        self.aliases = set()
+        cast_first = set()
+        for n in own_nodes(self.fn):
+            if isinstance(n, ast.Call) and dotted(n.func) in ("typ.cast", "typing.cast", "cast") and n.args:
+                cast_first |= {id(m) for m in ast.walk(n.args[0])}
+        ann_ids = set()
+        for n in ast.walk(self.fn):
+            for sub in ([n.annotation] if isinstance(n, (ast.AnnAssign, ast.arg)) and n.annotation is not None else []) + \
+                       ([n.returns] if isinstance(n, ast.FunctionDef) and n.returns is not None else []):
+                ann_ids |= {id(m) for m in ast.walk(sub)}
+        for name in list(self.locals):
+            loads = [m for m in own_nodes(self.fn) if isinstance(m, ast.Name) and m.id == name and isinstance(m.ctx, ast.Load)]
+            stores = [m for m in own_nodes(self.fn) if isinstance(m, ast.Name) and m.id == name and isinstance(m.ctx, ast.Store)]
+            if len(stores) == 1 and all(id(m) in cast_first or id(m) in ann_ids for m in loads) and name[:1].isupper():
+                self.aliases.add(name)
+        self.locals = [x for x in self.locals if x not in self.aliases]
+        self.local_classes = {n.name for n in self.fn.body if isinstance(n, ast.ClassDef)}
         self.uses_it = False
         self.uses_log = False
         self.consts = []   # (name, Lean value, source text): non-scalar constants folded at translation time, emitted as definitions
@@ -334,6 +354,8 @@ class Fn:
                 return f"(.lit {lit_val(g)})"
             if isinstance(g, type) and g.__module__.startswith("chartparse"):
                 return f"(.lit {class_val(g)})"   # a class of the package handed on as a value: an object that is nothing but its name
+            if node.id in getattr(self, "local_classes", ()):
+                return f"(.lit (.obj {lean_str('type:<locals>.' + node.id)} .fnil))"   # a class defined in this function's body
             raise Refused(f"name {node.id}")
         if isinstance(node, ast.Attribute):
             d = dotted(node)
@@ -546,6 +568,8 @@ class Fn:
             if len(tgs) != 1:
                 raise Refused("chained assignment")
             t = tgs[0]
+            if isinstance(t, ast.Name) and t.id in self.aliases:
+                return None
             if isinstance(t, ast.Name):
                 return f"(.assign {lean_str(t.id)} {self.expr(st.value)})"
             if isinstance(t, ast.Tuple) and all(isinstance(e, ast.Name) for e in t.elts):
@@ -642,6 +666,7 @@ FUNCTIONS = [
     ("instrumentParseData", "instrument", "InstrumentTrack._parse_data_from_chart_lines"),
     ("syncParseData", "sync", "SyncTrack._parse_data_from_chart_lines"),
     ("globalEventsParseData", "globalevents", "GlobalEventsTrack._parse_data_from_chart_lines"),
+    ("buildEventsFromData", "track", "build_events_from_data"),
 ]
 
 
